@@ -23,6 +23,8 @@ flow and hands them to the generated factory body.
         bnaf     <act | leaky:max_val> <depth> <block_dim> <lower> <upper> <tol> <max_iter> <fuel>
                                                             <perm> <C flat | -> (<W flat> <b> <scale_raw>)×(#layers)      (t, i only)
         trispline <tanh_max_val>                            <perm> <C flat | -> <lo> <hi> (<xs> <ys> <ds>)×dim <A flat> <loc>
+        gentrispline <tanh_max_val> <knots>                 <perm> <weights flat (what `init(lt_key, (dim, dim))` returns)> <C flat | ->
+                                                            (the GENERATED `triangular_spline_flow.make_layer`: layer as constructed)
       TF = AFF <init> | AFFM <min_scale> <init> | AFF0 <init> | RQS <knots> <lo> <hi> <softmax_adjust> <min_derivative> <init>
 -/
 namespace Drv
@@ -234,6 +236,23 @@ def flow : Handler
               let key := keyOf (⟨[], ⟨[], [], true⟩, none⟩, []) ls
               runFlow m (triSplineFlowBij dim mv key n invert) (triSplineFlow dim mv key n invert stdNormalVec) x c
           | _ => .error "trispline header"
+      | "gentrispline" =>
+          -- the GENERATED `triangular_spline_flow.make_layer` / `get_splines` (layer as constructed from its keys)
+          match rest with
+          | mv :: knots :: r => do
+              let mv ← parseF mv
+              let knots ← parseNat knots
+              let one : List String → Except String (TriSplineKey Float × List String)
+                | perm :: w :: cmat :: r => do
+                    let cflat ← parseFs cmat
+                    pure ((rowsOf dim dim (← parseFs w), ← parsePerm perm, toMat dim (cd.getD 0) cflat), r)
+                | _ => .error "layer fields"
+              let (ls, r) ← parseLayersN one n r
+              if !r.isEmpty then .error "trailing tokens"
+              let key := keyOf (([], [], []) : TriSplineKey Float) ls
+              runFlow m (genTriSplineFlowBij dim mv knots cd key n invert)
+                (genTriSplineFlow dim mv knots cd key n invert stdNormalVec) x c
+          | _ => .error "gentrispline header"
       | _ => .error s!"unknown flow kind {kind}"
   | _ => .error "bad flow op"
 
